@@ -385,6 +385,33 @@ func (e *streamExec) prepareToken() bool {
 			}
 		}
 	}
+	// several tokens back to back on ONE stream, read one after the other through the generic
+	// reader entry point with a caller-supplied codec that stops at the end of each item: every
+	// read gives its own token, however the stream is chunked (what one call reads ahead is not
+	// lost to the next)
+	if e.p.API == "decode" || e.p.API == "dagcbor" || e.p.API == "sealed" {
+		if one, derr := token.Decode(ref, dagcbor.Decode); derr == nil && !isNilTok(one) {
+			want := recOf(one).Content()
+			stopAtEnd := dagcbor.DecodeOptions{AllowLinks: true, DontParseBeyondEnd: true}.Decode
+			three := append(append(append([]byte{}, ref...), ref...), ref...)
+			for _, chunks := range [][]int{nil, {len(ref)}, {len(ref) + 7}, {2*len(ref) - 3}, {1}, {len(ref) / 2}} {
+				src := newSimReader(three, chunks, false, ReadFault{})
+				for k := 0; k < 3; k++ {
+					var tk token.Token
+					var terr error
+					if guard(o, "token.DecodeReader(caller-supplied codec)", func() { tk, terr = token.DecodeReader(src, stopAtEnd) }) {
+						return false
+					}
+					o.Eval("C18")
+					o.Sig("C18", "token", e.p.API, "read", "back-to-back", len(chunks), k, terr == nil)
+					if terr != nil || isNilTok(tk) || recOf(tk).Content() != want {
+						o.Violate("C18", "stream-read-differs", fmt.Sprintf("three tokens back to back on one stream (chunks %v), read with a codec that stops at the end of the item: read %d gives an error or another token (error: %v)", chunks, k+1, terr != nil), map[string]string{"api": "DecodeReader", "source": "back-to-back"})
+						break
+					}
+				}
+			}
+		}
+	}
 	e.wcalls, e.wsizes = sw.calls, sw.sizes
 	if e.p.API != "dagjson" {
 		if env, err := cbDecodeAll(ref); err == nil && env.Major == 4 && len(env.Kids) == 2 {
